@@ -36,6 +36,12 @@ def split_tag(s):
         return s[:m.start()].rstrip(), [x.strip() for x in m.group(1).split(",")]
     return s.rstrip(), None
 
+def inv_clause(cexpr):
+    """an invariant conjunct may end in `#[Cxx]`: extra property tags for that conjunct (e.g. C16 on the conjunct that
+    guards a panic site after the loop), on top of the function's tags"""
+    c, t = split_tag(cexpr)
+    return c, [x for x in (t or [])]
+
 def split_top(s, sep=","):
     """split at top-level separators (outside brackets, strings and quantifier binders |..|)."""
     toks = lex(s)
@@ -217,7 +223,7 @@ def apply_directive(fs, d, tmpl_name):
         if len(pos) > 2 and pos[2].startswith("assumed"):
             kws["assumed"] = pos[2][len("assumed"):].strip() or "[A-repo-nested]"
         fs.nested[pos[0]] = kws
-    elif kw in ("before", "after"):
+    elif kw in ("before", "after", "after_stmt"):
         m2 = re.match(r'"((?:[^"\\]|\\.)*)"\s*(?:nth=(\d+)\s*)?::\s*(.*)$', rest, re.S)
         if not m2:
             raise GenError("%s: bad %s directive: %r" % (tmpl_name, kw, rest))
@@ -783,12 +789,13 @@ def instantiate_fn(fs, item, em):
                 if spec.get(kind):
                     ltxt.append(kind)
                     for ci, cexpr in enumerate(split_top(spec[kind]), 1):
+                        cexpr, __xt = inv_clause(cexpr)
                         obid = "%s#loop%d%s%d" % (fnkey, n, kind[:3], ci)
                         if _mentions_lost(cexpr):
                             degraded.append("loop %d %s clause %d dropped: it mentions lost ghost %s" % (n, kind, ci, _mentions_lost(cexpr)))
                             continue
                         ltxt.append("    %s,  /*@ob %s*/" % (cexpr, obid))
-                        em._pending.append({"id": obid, "kind": "loop-" + kind, "fn": fnkey, "tags": [t for t in fs.tags if t != "C16"],
+                        em._pending.append({"id": obid, "kind": "loop-" + kind, "fn": fnkey, "tags": [t for t in fs.tags if t != "C16"] + __xt,
                                             "text": cexpr, "marker": obid})
             bo = toks[L["body_open"]]
             edits.append((bo.start, bo.start, "\n" + "\n".join("                " + x for x in ltxt) + "\n            "))
@@ -817,12 +824,13 @@ def instantiate_fn(fs, item, em):
                 if spec.get(kind):
                     ntxt.append(kind)
                     for ci, cexpr in enumerate(split_top(spec[kind]), 1):
+                        cexpr, __xt = inv_clause(cexpr)
                         obid = "%s#%s.%s%d" % (fnkey, nname, kind[:3], ci)
                         if assumed:
                             ntxt.append("    %s," % cexpr)
                             continue
                         ntxt.append("    %s,  /*@ob %s*/" % (cexpr, obid))
-                        em._pending.append({"id": obid, "kind": "nested-" + kind, "fn": fnkey, "tags": [t for t in fs.tags if t != "C16"],
+                        em._pending.append({"id": obid, "kind": "nested-" + kind, "fn": fnkey, "tags": [t for t in fs.tags if t != "C16"] + __xt,
                                             "text": cexpr, "marker": obid})
             edits.append((off + sub.sig_end, off + sub.sig_end,
                           "\n" + "\n".join("            " + x for x in ntxt) + "\n        "))
@@ -850,10 +858,11 @@ def instantiate_fn(fs, item, em):
                             if kws.get("invariant"):
                                 inv.append("invariant")
                                 for ci, cexpr in enumerate(split_top(kws["invariant"]), 1):
+                                    cexpr, __xt = inv_clause(cexpr)
                                     obid = "%s#ext%dinv%d" % (fnkey, cnt, ci)
                                     inv.append("    %s,  /*@ob %s*/" % (cexpr, obid))
                                     em._pending.append({"id": obid, "kind": "loop-invariant", "fn": fnkey,
-                                                        "tags": [t for t in fs.tags if t != "C16"], "text": cexpr, "marker": obid})
+                                                        "tags": [t for t in fs.tags if t != "C16"] + __xt, "text": cexpr, "marker": obid})
                             # shape `BASE.map(CLOSURE)`: iterate BASE and call the closure explicitly
                             # (definition of Iterator::map + Extend); otherwise iterate ITER as is.
                             mk = None
@@ -973,10 +982,11 @@ def instantiate_fn(fs, item, em):
                             if kws.get("invariant"):
                                 inv.append("invariant")
                                 for ci, cexpr in enumerate(split_top(kws["invariant"]), 1):
+                                    cexpr, __xt = inv_clause(cexpr)
                                     obid = "%s#fold%dinv%d" % (fnkey, cnt, ci)
                                     inv.append("    %s,  /*@ob %s*/" % (cexpr, obid))
                                     em._pending.append({"id": obid, "kind": "loop-invariant", "fn": fnkey,
-                                                        "tags": [t for t in fs.tags if t != "C16"], "text": cexpr, "marker": obid})
+                                                        "tags": [t for t in fs.tags if t != "C16"] + __xt, "text": cexpr, "marker": obid})
                             edits.append((toks[r].start, toks[k + 6].end, "{ let __src = %s.%s(); let mut __acc = " % (recv, itm)))
                             edits.append((toks[comma].start, toks[comma].end, "; let __f = "))
                             edits.append((toks[fclose].start, toks[fclose].end,
@@ -1021,10 +1031,11 @@ def instantiate_fn(fs, item, em):
                             if kws.get("invariant"):
                                 inv.append("invariant")
                                 for ci, cexpr in enumerate(split_top(kws["invariant"]), 1):
+                                    cexpr, __xt = inv_clause(cexpr)
                                     obid = "%s#%s%dinv%d" % (fnkey, meth[:2] + "c", cnt, ci)
                                     inv.append("    %s,  /*@ob %s*/" % (cexpr, obid))
                                     em._pending.append({"id": obid, "kind": "loop-invariant", "fn": fnkey,
-                                                        "tags": [t for t in fs.tags if t != "C16"], "text": cexpr, "marker": obid})
+                                                        "tags": [t for t in fs.tags if t != "C16"] + __xt, "text": cexpr, "marker": obid})
                             edits.append((toks[r].start, toks[k + 6].end, "{ let __src = %s.into_iter(); let __f = " % recv))
                             if meth == "filter":
                                 step = "if __f(&__x) { __out.push(__x); }"
@@ -1076,10 +1087,11 @@ def instantiate_fn(fs, item, em):
                             if kws.get("invariant"):
                                 inv.append("invariant")
                                 for ci, cexpr in enumerate(split_top(kws["invariant"]), 1):
+                                    cexpr, __xt = inv_clause(cexpr)
                                     obid = "%s#mcs%dinv%d" % (fnkey, cnt, ci)
                                     inv.append("    %s,  /*@ob %s*/" % (cexpr, obid))
                                     em._pending.append({"id": obid, "kind": "loop-invariant", "fn": fnkey,
-                                                        "tags": [t for t in fs.tags if t != "C16"], "text": cexpr, "marker": obid})
+                                                        "tags": [t for t in fs.tags if t != "C16"] + __xt, "text": cexpr, "marker": obid})
                             edits.append((toks[r].start, toks[k + 6].end, "{ let __src = %s.iter(); let __f = " % recv))
                             edits.append((toks[fclose].start, endtok.end,
                                           "; let mut __out: HashSet<%s> = HashSet::new(); for __x in %s: __src\n" % (ety, it) +
@@ -1124,10 +1136,11 @@ def instantiate_fn(fs, item, em):
                             if kws.get("invariant"):
                                 inv.append("invariant")
                                 for ci, cexpr in enumerate(split_top(kws["invariant"]), 1):
+                                    cexpr, __xt = inv_clause(cexpr)
                                     obid = "%s#fmc%dinv%d" % (fnkey, cnt, ci)
                                     inv.append("    %s,  /*@ob %s*/" % (cexpr, obid))
                                     em._pending.append({"id": obid, "kind": "loop-invariant", "fn": fnkey,
-                                                        "tags": [t for t in fs.tags if t != "C16"], "text": cexpr, "marker": obid})
+                                                        "tags": [t for t in fs.tags if t != "C16"] + __xt, "text": cexpr, "marker": obid})
                             edits.append((toks[r].start, toks[k + 6].end, "{ let __src = %s.into_iter(); let __f = " % recv))
                             edits.append((toks[fclose].start, toks[fclose + 3].end, "; let __g = "))
                             edits.append((toks[mclose].start, endtok.end,
@@ -1165,10 +1178,11 @@ def instantiate_fn(fs, item, em):
                             if kws.get("invariant"):
                                 inv.append("invariant")
                                 for ci, cexpr in enumerate(split_top(kws["invariant"]), 1):
+                                    cexpr, __xt = inv_clause(cexpr)
                                     obid = "%s#fe%dinv%d" % (fnkey, cnt, ci)
                                     inv.append("    %s,  /*@ob %s*/" % (cexpr, obid))
                                     em._pending.append({"id": obid, "kind": "loop-invariant", "fn": fnkey,
-                                                        "tags": [t for t in fs.tags if t != "C16"], "text": cexpr, "marker": obid})
+                                                        "tags": [t for t in fs.tags if t != "C16"] + __xt, "text": cexpr, "marker": obid})
                             edits.append((toks[r].start, toks[k + 6].start, "for %s in %s: %s\n" % (var, it, iter_txt) +
                                           "\n".join("                " + x for x in inv) + "\n            "))
                             if kws.get("body"):
@@ -1211,10 +1225,11 @@ def instantiate_fn(fs, item, em):
                             if kws.get("invariant"):
                                 inv.append("invariant")
                                 for ci, cexpr in enumerate(split_top(kws["invariant"]), 1):
+                                    cexpr, __xt = inv_clause(cexpr)
                                     obid = "%s#cr%dinv%d" % (fnkey, cnt, ci)
                                     inv.append("    %s,  /*@ob %s*/" % (cexpr, obid))
                                     em._pending.append({"id": obid, "kind": "loop-invariant", "fn": fnkey,
-                                                        "tags": [t for t in fs.tags if t != "C16"], "text": cexpr, "marker": obid})
+                                                        "tags": [t for t in fs.tags if t != "C16"] + __xt, "text": cexpr, "marker": obid})
                             body_hint = kws.get("body", "")   # reused field: proof text placed at loop body start
                             rep = ("{ let mut __v: Vec<%s> = Vec::new(); for __x in %s: %s.iter()\n" % (ety, it, recv) +
                                    "\n".join("                " + x for x in inv) +
@@ -1374,7 +1389,25 @@ def instantiate_fn(fs, item, em):
             if nth == 0 and len(idxs) > 1 and False:
                 raise GenError("%s: anchor %r is ambiguous" % (fnkey, anchor))
             p = idxs[nth] if kind == "before" else idxs[nth] + alens[nth]
-            edits.append((p, p, (" " if kind == "after" else "") + atext.strip() + ("\n        " if kind == "before" else "")))
+            if kind == "after_stmt":
+                # the anchor is the START of a statement; the hint goes after the `;` that ends that statement
+                depth, p = 0, None
+                for t in toks:
+                    if t.start < idxs[nth]:
+                        continue
+                    if t.text in ("(", "[", "{"):
+                        depth += 1
+                    elif t.text in (")", "]", "}"):
+                        depth -= 1
+                        if depth < 0:
+                            break
+                    elif t.text == ";" and depth == 0:
+                        p = t.end
+                        break
+                if p is None:
+                    degraded.append("anchor %r (nth=%d): no statement end found" % (anchor, nth))
+                    continue
+            edits.append((p, p, (" " if kind != "before" else "") + atext.strip() + ("\n        " if kind == "before" else "")))
         if fs.tail_post:
             # tail expression = everything after the last top-level `;` of the body
             q = sh.body_open + 1
